@@ -32,10 +32,23 @@ def run(seed, tier, replay=None):
                 violations.append({"what": f"scheduler step {k} differs from the model: impl={a} model={b} (ops {','.join(ops[:k + 1])})",
                                    "payload": {"stream": o[:2], "line_index": o[2], "request": q, "step": k, "impl": a, "model": b}, "kind": "step"})
                 break
-    samples = [f"{q}  =>  {i}" for (_, q, i) in items[:3]]
+    # dispatch order (priority queue)
+    rp = common.run_streams([("p_prio", [seed, 400 if tier == "quick" else 8000, vlib.BUILD + "/prio-tmp"])])
+    pitems = [([b, args, idx], req, impl) for (b, args, idx, req, impl) in rp.cases]
+    pm, _ = common.compare(pitems, None)
+    for m in pm:
+        violations.append({"what": f"dispatch order differs from 'descending priority, then binary id, then test name': impl={m['impl'][:200]} spec={m['model'][:200]}",
+                           "payload": {"stream": m["origin"][:2], "line_index": m["origin"][2], "request": m["req"], "impl": m["impl"], "spec": m["model"],
+                                       "explain": "prio <binaries id:tests;…> <priority overrides kind:arg:priority+100 in file order>  =>  queue order binary/test,…"}, "kind": "priority"})
+    for (_, q, i) in pitems:
+        if i.count(",") >= 3: nt.add(q)
+    items = items + pitems
+    for k, v in rp.dist.items(): r.dist["prio:" + k] = v
+    r.broken += rp.broken
+    samples = [f"{q}  =>  {i}" for (_, q, i) in items[:3]] + [f"{q[:300]}  =>  {i[:300]}" for (_, q, i) in pitems[:2]]
     return {
         "evaluations": len(items), "distinct_nontrivial": len(nt),
-        "rule": "p_sched drives the real future_queue_grouped by hand: test-threads 1-6, 0-2 groups with max-threads 1-4, 0-10 items with weights from {1,2,3,8} (uniform per group in 2/3 of the cases), every future completes at a random moment chosen by the generator (any completion order); after every poll the set of newly created futures, their slots and current_global_weight are recorded; monitors recompute the weight sums from the history; non-trivial = at least 3 items and 3 operations",
+        "rule": "p_sched drives the real future_queue_grouped by hand: test-threads 1-6, 0-2 groups with max-threads 1-4, 0-10 items with weights from {1,2,3,8} (uniform per group in 2/3 of the cases), every future completes at a random moment chosen by the generator (any completion order); after every poll the set of newly created futures, their slots and current_global_weight are recorded; monitors recompute the weight sums from the history; p_prio builds test lists of 1-4 binaries with up to 30 tests each and 0-3 priority overrides and compares TestList::to_priority_queue with the stable descending sort; non-trivial = at least 3 items and 3 operations (scheduler) or at least 4 queued tests (priority)",
         "samples": samples, "traces": len(items), "dist": r.dist,
         "violations": violations, "broken": r.broken, "impl_failures": r.impl_failures,
     }
